@@ -41,13 +41,25 @@ def _err(op, e):
 
 
 class Session:
-    """Function objects of one model, created lazily per (target, jit)."""
+    """Function objects of one model, created lazily per (target, jit).  Cases with the same `session_key` that run
+    in one driver process share the session: the same function objects and, for steps with `inplace`, the same
+    params object whose numpy leaves are overwritten in place (what a user does who updates parameters between calls)."""
 
     def __init__(self, m):
         self.m = m
         self.model = MDL.build(m)
         self.funcs = {}
         self.template = None
+        self.params_obj = None
+
+    def params_for(self, m, step):
+        if step.get("inplace"):
+            if self.params_obj is None:
+                self.params_obj = MDL.params(m, leaf="inplace")
+            else:
+                MDL.update_params_inplace(self.params_obj, m)
+            return self.params_obj
+        return MDL.params(step.get("mdl_params", m), leaf=step.get("leaf", "float"))
 
     def get(self, target, jit):
         from lcm.entry_point import get_lcm_function
@@ -93,7 +105,7 @@ def template_event(sess):
 
 def solve_event(sess, step, store):
     f = sess.get("solve", step.get("jit", True))
-    p = MDL.params(step.get("mdl_params", sess.m), leaf=step.get("leaf", "float"))
+    p = sess.params_for(step.get("mdl_now", sess.m), step)
     ccv = []
     try:
         import lcm._verif as hooks
@@ -134,7 +146,8 @@ def simulate_event(sess, step, store):  # noqa: C901
     m = sess.m
     target = step.get("target", "simulate")
     jit = step.get("jit", True)
-    p = MDL.params(step.get("mdl_params", m), leaf=step.get("leaf", "float"))
+    m = step.get("mdl_now", sess.m)
+    p = sess.params_for(m, step)
     init = {k: [F(x) if not isinstance(x, (list, tuple)) else F(*x) for x in v] for k, v in step["init"].items()}
     order = step.get("init_order") or list(init)
     init_arr = _init_arrays(m, {k: init[k] for k in order}, int_init=bool(step.get("int_init")))
@@ -216,19 +229,27 @@ def _sim_steps(m, evs):
     return out
 
 
-def run_case(spec):
+def run_case(spec, sessions=None):
     """Drive lcm through the plan of one case; exceptions become `error' events."""
     events = []
     store = {}
+    key = spec.get("session_key")
     try:
-        sess = Session(spec["mdl"])
+        if sessions is not None and key is not None and key in sessions:
+            sess = sessions[key]
+        else:
+            sess = Session(spec["mdl"])
+            if sessions is not None and key is not None:
+                sessions[key] = sess
     except Exception as e:  # noqa: BLE001
         events.append(_err("build", e))
         sess = None
     for step in spec["plan"]:
+        if sess is not None and key is not None:
+            step = dict(step, mdl_now=spec["mdl"])
         op = step["op"]
         if op.startswith("rel-"):
-            events.append({"e": op, **{k: v for k, v in step.items() if k != "op"}})
+            events.append({"e": op, **{k: v for k, v in step.items() if k not in ("op", "mdl_now")}})
             continue
         if sess is None:
             continue
@@ -257,7 +278,8 @@ def MDL_strip(m):
 
 def _run_chunk(specs):
     _worker_init()
-    return [run_case(s) for s in specs]
+    sessions = {}
+    return [run_case(s, sessions) for s in specs]
 
 
 def run_cases(specs, nproc=None, chunk=4):
